@@ -57,6 +57,12 @@ func (cl Serializer) DecodeDnsResponse(msg *dns.Msg) (Response, error) {
 
 // DecodeDnsResponse will take a DNS message and decode it into one of the DNS response object
 func (cl Serializer) DecodeDnsResponseWithParams(msg *dns.Msg, downstream enc.Encoder) (Response, error) {
+	if downstream == nil {
+		// No downstream codec has been negotiated yet (early handshake). The answers expected at that stage do not
+		// use it, but an unexpected answer may be of a kind whose decoder does: decode it with the protocol's
+		// initial codec instead of dereferencing nil; the caller then rejects it as not matching its request.
+		downstream = enc.Base32Encoding
+	}
 	data := util.UnwrapDnsResponse(msg, cl.Domain)
 	if len(data) == 0 {
 		return nil, errors.Errorf("Invalid response from server. No data in the answer.")
